@@ -36,7 +36,7 @@ def fbits(x):
 
 
 class Node:
-    __slots__ = ("ty", "name", "kids")
+    __slots__ = ("ty", "name", "kids", "val")
 
     def __init__(self, ty, name=None):
         self.ty = ty
@@ -516,3 +516,103 @@ def exhaustive_histories(depth, with_overrides):
             body.append(ALPHABET[i])
             body.append("dump")
         yield "\n".join(body) + "\n"
+
+
+# ---- random trees built without failing calls (C06, C16, C01, C19) ----
+def gen_tree(rng, max_depth=4, max_fan=5, big=False):
+    """A random well-formed tree as Shadow Nodes with values in .val (script token)."""
+    names = list(VALID_NAMES)
+
+    def mk(ty, name, depth):
+        n = Node(ty, name)
+        n.val = None
+        if ty in SCALARS:
+            n.val = rand_value(rng, KIND[ty])
+            if n.val == "-":
+                n.val = hx(b"")
+            return n
+        fan = rng.randint(0, max_fan) if depth < max_depth else 0
+        if big and depth == 1 and rng.random() < 0.3:
+            fan = rng.choice([15, 16, 17, 31, 33])
+        if ty == T_GROUP:
+            nm = rng.sample(names, min(fan, len(names)))
+            for x in nm:
+                n.kids.append(mk(rng.choice(SCALARS + AGGS), x, depth + 1))
+        elif ty == T_ARRAY:
+            et = rng.choice(SCALARS)
+            for _ in range(fan):
+                n.kids.append(mk(et, None, depth + 1))
+        else:
+            for _ in range(fan):
+                n.kids.append(mk(rng.choice(SCALARS + AGGS), None, depth + 1))
+        return n
+    root = mk(T_GROUP, None, 0)
+    return root
+
+
+def tree_script(root):
+    """add/set calls that build the tree (depth first); no call fails"""
+    out = []
+
+    def rec(n, p):
+        for i, k in enumerate(n.kids):
+            out.append("add %s %s %d" % (path_str(p), hx(k.name) if k.name is not None else "-", k.ty))
+            if k.ty in SCALARS:
+                out.append("set %s %s %s" % (KIND[k.ty], path_str(p + [i]), k.val))
+            rec(k, p + [i])
+    rec(root, [])
+    return out
+
+
+def all_nodes(root):
+    res = []
+
+    def rec(n, p):
+        res.append((p, n))
+        for i, k in enumerate(n.kids):
+            rec(k, p + [i])
+    rec(root, [])
+    return res
+
+
+def spell(rng, base, rel):
+    """a random documented spelling of the index path rel below node base"""
+    out = b""
+    cur = base
+    for j, i in enumerate(rel):
+        k = cur.kids[i]
+        if j > 0 or rng.random() < 0.3:
+            out += rng.choice(SEPS)
+        if k.name is not None and rng.random() < 0.8:
+            out += k.name
+        else:
+            out += b"[" + (b"0" * rng.choice([0, 0, 0, 1, 3])) + b"%d" % i + b"]"
+        cur = k
+    return out
+
+
+def corrupt_paths(rng, base, rel):
+    """paths that must resolve to nothing (documented syntax, naming something that does not exist)"""
+    res = []
+    cur = base
+    pre = b""
+    for j, i in enumerate(rel):
+        k = cur.kids[i]
+        sep = rng.choice(SEPS) if j > 0 else b""
+        L = len(cur.kids)
+        if cur.ty == T_GROUP:
+            res.append(pre + sep + b"nosuch")
+            if k.name is not None:
+                res.append(pre + sep + k.name + b"x")          # extension of a sibling name
+                if len(k.name) > 1:
+                    res.append(pre + sep + k.name[:-1])       # prefix of a name (may exist: filtered by the oracle)
+        for big in (L, L + 1, 2**31, 2**32, 2**32 + i, 2**32 + L - 1 if L else 2**32, 2**63, 2**64 + i, 10**25):
+            res.append(pre + sep + b"[%d]" % big)
+        comp = k.name if (k.name is not None) else b"[%d]" % i
+        pre = pre + sep + comp
+        cur = k
+    if cur.ty in SCALARS:
+        res.append(pre + b".x")
+        res.append(pre + b".[0]")
+        res.append(pre + b"/[0]/y")
+    return res
